@@ -10,7 +10,7 @@ CONSTANTS
   PatternW = TRUE
   TdFlags = {FALSE}
   InVecs <- VecsOne
-  OrderKinds = {"IBOH"}
+  OrderKinds = {"BIHO"}
   ActSchemes <- SchemesLinear
   LinkCaps = {2}
   MinLinks = 1
